@@ -103,7 +103,13 @@ def noise(ctx, viol, st):
         X = [[k / 8.0, 0.25] for k in range(K)]
         Y = [[rng.randint(-16, 16) / 8.0 for _ in range(m)] for _ in range(K)]
         name = algrun.make_ds(X, Y)
-        prob = ProblemFromDataset(getattr(dsmod, name)(), 0.25)
+        nv = rng.choice([0.25, 0.01, 1.0, 4.0, 100.0])
+        prob = ProblemFromDataset(getattr(dsmod, name)(), nv)
+        # the configured variance: with unit draws g the noise is g L^T, whose covariance L L^T must be noise_var * I
+        Lc = np.array(prob.noise_cholesky, dtype=float)
+        st["noise_factor_checks"] = st.get("noise_factor_checks", 0) + 1
+        if Lc.shape != (m, m) or not np.allclose(Lc @ Lc.T, nv * np.eye(m), rtol=1e-12, atol=0):
+            viol.append({"signature": "noise-covariance-not-configured-variance", "message": f"ProblemFromDataset(noise_var={nv}): the noise factor is {Lc.tolist()}, so the noise covariance is {(Lc @ Lc.T).tolist()} instead of {nv} * I", "replay": {"kind": "noise", "noise_var": nv}})
         kind = rng.choice(["diag", "corr"])
         if kind == "corr":
             L = np.tril(np.array([[rng.randint(-4, 4) / 2.0 for _ in range(m)] for _ in range(m)]))
@@ -133,6 +139,12 @@ def noise(ctx, viol, st):
 def continuous(ctx, viol, st):
     from vopy.maximization_problem import BraninCurrin, get_continuous_problem
     rng = ctx.rng
+    for nv in (0.01, 1.0, 9.0):
+        pc = BraninCurrin(nv)
+        Lc = np.array(pc.noise_cholesky, dtype=float)
+        st["noise_factor_checks"] = st.get("noise_factor_checks", 0) + 1
+        if Lc.shape != (2, 2) or not np.allclose(Lc @ Lc.T, nv * np.eye(2), rtol=1e-12, atol=0):
+            viol.append({"signature": "noise-covariance-not-configured-variance", "message": f"BraninCurrin(noise_var={nv}): the noise factor is {Lc.tolist()}, so the noise covariance is {(Lc @ Lc.T).tolist()} instead of {nv} * I", "replay": {"kind": "currin", "noise_var": nv}})
     p = BraninCurrin(0.01)
     for _ in range(30 if ctx.quick else 300):
         n = rng.randint(1, 5)
